@@ -96,6 +96,8 @@ def run_one(tape, opts):
                 tests.append({"tid": c[1], "kind": c[2], "start": ("explicit", override) if override is not None else ("clock", lo, hi)})
             elif op == "outcome":
                 tests[-1].update(method=c[3], mode=c[4], payload=c[5])
+                if c[4] == "details" and rep.last_details is not None and sorted(rep.last_details) != sorted(c[5]["details"]):
+                    out.violate("caller-arg-mutated", "details-dict", f"the details dict passed with {c[3]} had keys {sorted(c[5]['details'])}, afterwards {sorted(rep.last_details)}; stack {spec}")
             elif op == "stopTest":
                 tests[-1]["stop"] = ("explicit", override) if override is not None else ("clock", lo, hi)
                 tests[-1]["complete"] = True
@@ -201,10 +203,10 @@ def _check_terminals(out, built, world, tests, spec, hist=()):
                             out.violate("degradation-wrong", fl + ":detail-text-missing-from-exception", f"{term['name']}: {tx!r} not in {data['err']['text']!r}")
                             break
                 elif "reason" in data and e.method == "addSkip":
-                    want_reason = t["payload"].get("reason")
                     r = data["reason"] or ""
                     if "reason" in t["payload"]["details"]:
-                        pass
+                        # a 'reason' detail is the reason; the other details have nowhere to go
+                        texts = [b"".join(t["payload"]["details"]["reason"][1]).decode("utf8")]
                     for tx in texts:
                         if tx not in r:
                             out.violate("degradation-wrong", fl + ":detail-text-missing-from-reason", f"{term['name']}: {tx!r} not in reason {r!r}")
